@@ -233,7 +233,7 @@ def check_server_update(check, repo: Repo, alg: Algorithm, mean_call: ast.Call, 
     if r.kind == 'func' and r.func.scope.parent is alg.builder.scope:
       b = call_args(c, r.func.positional_params)
       for pname, a in b.items():
-        if isinstance(a, ast.Name) and a.id in mean_names and any(x is mean_call for x in ff.expand(a)):
+        if a is mean_call or (isinstance(a, ast.Name) and a.id in mean_names and any(x is mean_call for x in ff.expand(a))):
           targets.append((FuncFlow.of(repo, r.func), r.func, {'mean': pname, 'binding': b, 'call': c}))
   if not targets:
     targets.append((ff, fi, {'mean': None}))
